@@ -34,7 +34,7 @@ pub static PROP: Prop = Prop {
         "a cookie sealed by the harness under an older key of a loaded start state counts as issued that many rotations earlier",
     ],
     profiles: Profiles::Both,
-    cases: |t| t.pick(8_000, 100_000),
+    cases: |t| t.pick(30_000, 300_000),
     budget_s: |t| t.pick(30, 300),
     run,
     min_nontrivial: 40,
